@@ -80,10 +80,10 @@ Judge(ev) ==
             IF ev.c1 = ev.c2
             THEN (CASE ev.f \in {"add", "sub"} -> J(ev.obs.st = "ok" /\ ev.obs.cur = ev.c1 /\ ev.obs.t = "Money" /\ ev.obs.ongrid /\ ev.obs.exact)
                    [] ev.f = "div" -> J(ev.obs.st = "num" /\ ev.obs.exact)
-                   [] ev.f = "convert" -> J(ev.obs.st = "ok" /\ ev.obs.cur = ev.c1 /\ ev.obs.exact)
+                   [] ev.f \in {"convert", "parse"} -> J(ev.obs.st = "ok" /\ ev.obs.cur = ev.c1 /\ ev.obs.exact)
                    [] ev.f = "mul" -> J(IsErr(ev.obs, "UndefinedResultError"))
                    [] OTHER -> J(ev.obs.st = "bool" /\ ev.obs.exact))
-            ELSE (CASE ev.f \in {"add", "sub", "div", "lt", "le", "gt", "ge", "convert"} -> J(IsErr(ev.obs, "UnitConversionError"))
+            ELSE (CASE ev.f \in {"add", "sub", "div", "lt", "le", "gt", "ge", "convert", "parse"} -> J(IsErr(ev.obs, "UnitConversionError"))
                    [] ev.f = "eq" -> J(ev.obs.st = "bool" /\ ~ev.obs.b)
                    [] ev.f = "ne" -> J(ev.obs.st = "bool" /\ ev.obs.b)
                    [] ev.f = "mul" -> J(IsErr(ev.obs, "UndefinedResultError")))
@@ -131,7 +131,10 @@ Judge(ev) ==
             IN  IF ~ev.p.ismoney THEN J(IsErr(ev.obs, "QuantityError"))
                 ELSE IF ev.p.c # want THEN J(IsErr(ev.obs, "QuantityError"))
                 ELSE IF ~anyvec THEN J(IsErr(ev.obs, "QuantityError"))
-                ELSE IF ~exact THEN "oor"          \* another unit of the dimension is declared: the property is silent
+                \* the exact target is not declared but another unit of the dimension is: the property does not say
+                \* whether that one is to be found - QuantityError is accepted, and so is a result in a declared
+                \* unit of the target currency, which then has to be worth exactly price * rate
+                ELSE IF ~exact /\ IsErr(ev.obs, "QuantityError") THEN "ok"
                 ELSE IF ev.obs.st # "ok" THEN "bad:rejected"
                 ELSE IF ev.obs.c # tcur \/ <<ev.obs.c, ev.obs.m>> \notin decl \/ ~ev.obs.sametype THEN "bad:unit-or-type"
                 ELSE J(QEqv(QDiv(Q(ev.obs.a), MScale(ev.obs.m)), val))
